@@ -190,7 +190,8 @@ class Skeletons:
             return ("loop", "do", "while(%s)" % self.fm.origin(cond), self.items(body, declared), s)
         init, cond, inc, body = s["c"]
         ivars = [v for v in kids(init) if v.get("k") == "VarDecl"] if init is not None and init.get("k") == "DeclStmt" else []
-        if len(ivars) == 1 and kids(ivars[0]) and self.fm.origin(kids(ivars[0])[0]).startswith("it(") and cond is not None:
+        if ivars and all(kids(v_) for v_ in ivars) and self.fm.origin(kids(ivars[0])[0]).startswith("it(") and cond is not None \
+                and all(self.fm.origin(kids(v_)[0]).startswith(("it(", "end(")) for v_ in ivars[1:]):
             # for(auto it = X.begin(); it != X.end(); ++it) == the while form with the increment last
             items = self.items(body, declared) + (self.items(inc, declared) if inc is not None else [])
             return ("loop", "while(%s)" % self.fm.origin(cond), "", items, s)
